@@ -11,8 +11,8 @@ import (
 
 // C10 — ring-wide key listing returns exactly the stored keys, once per kind of data.
 //
-// A stabilised ring of 1..N real LocalNodes (symbolic 48-bit ids, real kv/memory stores sharing an uninterpreted hash
-// function) holds K pairwise distinct keys with symbolic bytes. Every key is stored in the store of the member that
+// A stabilised ring of 1..N real LocalNodes (symbolic 48-bit ids, real kv/memory stores sharing a table-driven hash
+// function with arbitrary values) holds K pairwise distinct keys with symbolic bytes. Every key is stored in the store of the member that
 // owns its hash (the owner index is a case split, the hash is constrained to that member's arc) through the store's
 // public operations, following a content recipe per kind (simple value / prefix children / lease). Then the real
 // LocalNode.ListKeys(prefix) runs at member 0 (whose id is arbitrary, so this is "any node") with a symbolic prefix of
@@ -122,8 +122,9 @@ func ZZ_C10_List() {
 	if n < rt.Bound("NMIN") {
 		return
 	}
-	ring := zzNewRing(n)
-	rr := zzNewRealRing(ring, zzUFHash, rt.Bound("FING") > 0)
+	zzResetHashes()
+	ring := zzNewRingCmp(n)
+	rr := zzNewRealRing(ring, zzTabHash, rt.Bound("FING") > 0)
 	keys := make([]*zzC10Key, K)
 	owners := make([]int, K)
 	for i := range keys {
@@ -134,18 +135,21 @@ func ZZ_C10_List() {
 		k := &zzC10Key{key: rt.BytesN("key", l)}
 		for j := 0; j < i; j++ {
 			rt.Assume(!rt.EqBytes(keys[j].key, k.key))
-			if rt.Bound("COLL") == 0 { // no hash collisions in this obligation
-				rt.Assume(zzUFHash(keys[j].key) != zzUFHash(k.key))
-			}
 		}
 		keys[i] = k
+		h := zzNewKeyHash(k.key)
+		for j := 0; j < i; j++ {
+			if rt.Bound("COLL") == 0 { // no hash collisions in this obligation
+				rt.Assume(zzTabHash(keys[j].key) != h)
+			}
+		}
 		if n > 1 {
 			if rt.Bound("ONEPER") > 0 { // key i lives on member i mod n: no case split
 				owners[i] = i % n
 			} else {
 				owners[i] = rt.Choose("owner", n)
 			}
-			rt.Assume(ring.owner(zzUFHash(k.key)) == ring.ids[owners[i]])
+			rt.Assume(zzInArc(ring.ids[(owners[i]+n-1)%n], h, ring.ids[owners[i]])) // stored on the member that owns its hash
 		}
 		var sr, cr, lr int
 		switch {
